@@ -5,6 +5,7 @@ package c08
 
 import (
 	"fmt"
+	"math"
 	"math/big"
 	"sort"
 	"strconv"
@@ -73,6 +74,7 @@ type tspec struct {
 	Mig     [][2]int `json:"mig,omitempty"` // (g of nvidia.com/mig-<g>g.<5g>gb, instances)
 	CPUm    int64    `json:"cpuMilli"`
 	MemMB   int64    `json:"memMB"`
+	MemB    int64    `json:"memBytes,omitempty"` // further bytes of memory on top of MemMB (tiny requests: 1 byte .. 9 MiB)
 	NodeMem int64    `json:"nodeGpuMemory"` // MemoryOfEveryGpuOnNode of the node it is placed on
 	// State: for a pod of the snapshot (seqCase.Init), what the cluster says about it when the cycle starts; one of
 	// snapStates. "" = pending.
@@ -116,6 +118,9 @@ type jspec struct {
 	Tasks       []tspec `json:"tasks"`
 	// Priority: action stream only (the job's priority; preemptible = priority < 100). 0 elsewhere (jobs are built with 50).
 	Priority int32 `json:"priority,omitempty"`
+	// MinAvail: action stream only: minMember of the PodGroup when it is not the number of pods (1 = an elastic
+	// workload that grows one pod per AllocateJob attempt).
+	MinAvail int32 `json:"minAvailable,omitempty"`
 }
 
 // ---- name -> positive -------------------------------------------------------
@@ -137,11 +142,21 @@ func (i *ids) of(name string) int {
 
 // ---- exact printing ---------------------------------------------------------
 
-// Q prints a float64 as the exact rational it denotes.
+// Q prints a float64 as the exact rational it denotes -- except for the hundredths of a GPU the code itself computes
+// as float64(k)/100 (getExtendedResourceGpus, getGpuMemoryFractionalOnNode; a gpu-fraction annotation "0.01" parses to
+// the same float64): a value that is not a short dyadic fraction and equals float64(k)/100 bit for bit is printed as
+// k/100, the number the code means by it (the model computes k/100 there). The generators keep the float64 sums of
+// such values exact in this reading (tiny.go: at most 0.02 GPU of them below any cap on the unchanged tree).
 func Q(f float64) string {
 	r := new(big.Rat)
 	if r.SetFloat64(f) == nil {
 		panic(fmt.Sprintf("non-finite quantity %v", f))
+	}
+	if f > 0 && r.Denom().BitLen() > 40 {
+		if k := math.Round(f * 100); math.Abs(k) < 1e6 && k/100 == f {
+			r.SetFrac64(int64(k), 100)
+			return fmt.Sprintf("(%s # %s)", r.Num().String(), r.Denom().String())
+		}
 	}
 	num, den := r.Num(), r.Denom()
 	if num.Sign() < 0 {
@@ -165,8 +180,8 @@ func buildPod(jobName string, t tspec) (*v1.Pod, []*resourceapi.ResourceClaim) {
 	if t.CPUm > 0 {
 		req[v1.ResourceCPU] = *resource.NewMilliQuantity(t.CPUm, resource.DecimalSI)
 	}
-	if t.MemMB > 0 {
-		req[v1.ResourceMemory] = *resource.NewQuantity(t.MemMB*1000*1000, resource.DecimalSI)
+	if t.MemMB > 0 || t.MemB > 0 {
+		req[v1.ResourceMemory] = *resource.NewQuantity(t.MemMB*1000*1000+t.MemB, resource.DecimalSI)
 	}
 	ann := map[string]string{commonconstants.PodGroupAnnotationForPod: jobName}
 	var claims []*resourceapi.ResourceClaim
